@@ -402,13 +402,13 @@ def run_rsyst_full(case):
                 st.update_current({"u": u, "x": 20 * u - 10, "logl": -(np.arange(k, k + nt) + 1.0), "beta": 0.0 if t == 0 else 0.5, "logz": 0.0, "iter": t + 1})
                 st.commit_current_to_history()
                 k += nt
-            st.set_current("beta", 0.5)
+            st.set_current("beta", float(case.get("beta", 0.5)))  # any temperature > 0 is an annealing iteration: the pool must be resampled
             r = Resampler(st, n_particles=n, resample="syst", clusterer=None, clustering=False, have_blobs=False)
 
             def h(t, *aa, **kk):
                 return u0 if not (aa or kk) else OwnedRandom.PASS
 
-            cc = {"kind": "rsyst_full", "n": n, "ws": [list(map(float, w))], "u0": u0}
+            cc = {"kind": "rsyst_full", "n": n, "ws": [list(map(float, w))], "u0": u0, "beta": float(case.get("beta", 0.5))}
             if case.get("u0") is not None and case["u0"] != u0:
                 continue
             with OwnedRandom(1, handlers={"random": h, "random_sample": h, "rand": h}):
@@ -450,15 +450,22 @@ def run_rsyst_full(case):
 
 def run_session6(case):
     """Operation sequences on one sampler object (iterate / save / load): the resampled set must always be drawn from the CURRENT pool."""
-    from checks import c07
+    from mc import session
+    from mc.monitors import resample_law_monitor, coherent_monitor
 
-    r = c07.run_session(case)
-    r.viol = [v for v in r.viol if "not-from-pool" in v["key"]]
-    r.vcount = {k: c for k, c in r.vcount.items() if "not-from-pool" in k}
-    return r
+    return session.run_case(case, lambda: [coherent_monitor("session"), resample_law_monitor("session")], oracle=None, key_pred=lambda k: ":resample:" in k)
 
 
-KINDS = {"rsyst_full": run_rsyst_full, "session": run_session6, "syst": run_syst, "mult": run_mult, "rsyst": run_rsyst, "post": run_post}
+def run_duo6(case):
+    """Two samplers alive in one process with DIFFERENT resampling schemes (and the same one), every interleaving of their iterations and queries:
+    each must resample by its own scheme (index order / copy-count law of the systematic scheme, no zero-weight particle)."""
+    from mc import session
+    from mc.monitors import resample_law_monitor, coherent_monitor
+
+    return session.run_duo(case, lambda: [resample_law_monitor("pipe"), coherent_monitor("pipe")])
+
+
+KINDS = {"duo": run_duo6, "rsyst_full": run_rsyst_full, "session": run_session6, "syst": run_syst, "mult": run_mult, "rsyst": run_rsyst, "post": run_post}
 
 
 # ---------------------------------------------------------------------------------------------
@@ -545,8 +552,13 @@ def plan(ctx):
                 ws.append((base * (1 - 0.9 * ref.SQRTEPS)).tolist())
     ws.append([0.1] * 10)
     full = [{"kind": "rsyst_full", "n": nn, "ws": ws[i::12]} for nn in ((2, 3, 5, 8) if th else (2, 5)) for i in range(12)]
+    # the same partition at the smallest temperatures an annealing iteration can have (bisection resolution 2^-14, below the schedule tolerance, subnormal) and at 1
+    full += [{"kind": "rsyst_full", "n": 3, "ws": ws[i::12][:: (1 if th else 3)], "beta": b} for b in (2.0 ** -14, 1e-5, 9.9e-5, 5e-324, 1.0) for i in range(12)]
     ctx.explore("resampler-call-site-partition", full)
     from mc import session as _sess
     cfg = dict(n_particles=8, d=1, ess_ratio=1.0, n_total=10 ** 6, eval="scalar", clustering=False)
     ses = [{"kind": "session", "cfg": dict(cfg, resample=rs), "base": ctx.seed, "depth": 9, "patterns": [sh, 4]} for rs in ("mult", "syst") for sh in range(4)]
     ctx.explore("session-sequences", ses)
+    duo = [{"kind": "duo", "cfg": dict(cfg, resample=ra), "cfg_b": {"resample": rb}, "base": ctx.seed, "depth": 4 if th else 3, "shard": [sh, 4]}
+           for ra, rb in (("syst", "mult"), ("mult", "syst"), ("syst", "syst")) for sh in range(4)]
+    ctx.explore("two-samplers-interleaved", duo)
